@@ -108,7 +108,8 @@ def pmap_unordered(fn, items, jobs=None):
 class Deadline:
     def __init__(self, seconds):
         self.t0 = time.time()
-        self.limit = seconds
+        # VERIF_DEADLINE_SCALE < 1 is for smoke-testing a tier's code paths only (the evidence then reports the caps that were hit)
+        self.limit = seconds * float(os.environ.get("VERIF_DEADLINE_SCALE", "1"))
 
     def left(self):
         return self.limit - (time.time() - self.t0)
